@@ -177,8 +177,12 @@ MISSING = object()
 class Impl:
     """The real classes and objects of one case."""
 
-    def __init__(self):
+    def __init__(self, case=""):
         restore_roots()
+        # replay-stable switch: half of the cases build their classes FALSY (__bool__ -> False, or
+        # __len__ -> 0); nothing in C13 depends on an object's truth value, so outputs must not change
+        import zlib
+        self.falsy = zlib.crc32(case.encode()) % 4      # 0, 1: ordinary; 2: __bool__; 3: __len__
         self.classes = dict(roots())
         self.objs = {}
         self.nclasses = 0
@@ -217,6 +221,10 @@ class Impl:
             for b in bs:
                 for n, t in b.__class_traits__.items():
                     inherited.setdefault(n, t)
+            if self.falsy == 2:
+                d["__bool__"] = lambda self: False
+            elif self.falsy == 3:
+                d["__len__"] = lambda self: 0
             C = MetaHasTraits("K%d_%s" % (self.nclasses, cn), bs, d)
             self.classes[cn] = C
             return "ok " + ",".join("." + p for p in C.__prefix_traits__["*"]), {"cls": C, "inherited": inherited}
